@@ -317,7 +317,7 @@ Proof.
   - (* grouping parentheses *)
     assert (Hnt : ntoks (D hdr None (Some (None, d')) [] arrays) =
                   List.length hdr + (S (ntoks d' + 1) + List.length (List.concat (map alen_toks arrays)))).
-    { unfold ntoks. cbn [sdecl_toks]. rewrite !app_length, map_length. cbn [List.length]. Show. lia. }
+    { unfold ntoks. cbn [sdecl_toks]. rewrite !app_length, map_length. cbn [List.length]. reflexivity. }
     rewrite Hnt in *. clear Hnt. unfold ntoks in *.
     cbn [sdecl_toks nops cost apply_decl] in Hat, Hroom |- *.
     apply At_app in Hat as [Hat1 Hat2]. rewrite map_length in Hat2.
@@ -349,12 +349,13 @@ Proof.
     rewrite (write_ds_ok osz input) by lia. cbn [bind].
     destruct (IH f (S p) (oh ++ [OP OP_NOOP 0]) (Z.of_nat (List.length oh))) as (og & x' & Hrun & Hlg & Hpg & Hsg).
     { exact Hin. }
-    { right. fold nd. replace (S p + nd) with (p + 1 + nd) by lia. rewrite (At_K _ _ _ Hrp). reflexivity. }
+    { right. match goal with |- Parse.K _ ?e = _ => replace e with (S p + nd) by (subst nd p; lia) end.
+      rewrite (At_K _ _ _ Hrp). reflexivity. }
     { rewrite app_length. cbn [List.length]. lia. }
     { fold nd. lia. }
     fold nd in Hrun. rewrite Hrun. cbn [bind].
     assert (HKr : K (S p + nd) = KChar c_rpar).
-    { replace (S p + nd) with (p + 1 + nd) by lia. rewrite (At_K _ _ _ Hrp). reflexivity. }
+    { rewrite (At_K _ _ _ Hrp). reflexivity. }
     unfold is_ch at 1. rewrite (kind_T _ _ L), HKr. cbn [kind_eqb]. rewrite N.eqb_refl. cbn [negb].
     rewrite T_next.
     assert (Hnolp : is_ch (T (S (S p + nd)) og) c_lpar = false).
